@@ -1,8 +1,174 @@
+import Corro.Model.Crdt
+import Corro.Model.Node
+import Corro.Model.Ingest
 import Driver.Util
-/-! Driver stub for C10: not built yet. -/
+import Driver.CrdtFmt
+import Driver.ClusterOps
+/-! Driver for C10: origin databases (`cw`), the node under test behind the ingest loop model.
+Op language: see harness/src/c10.rs. -/
 namespace Driver.C10
-abbrev State := Unit
-def init : State := ()
-def step (st : State) (_toks : List String) : Option (State × String) := some (st, "bad-op")
+open Corro Corro.Crdt Corro.Node Corro.Ingest Driver Driver.CrdtFmt
+
+def nutId : Nat := 3
+
+structure Offered where
+  text : String
+  item : Item
+
+structure State where
+  dbs : List Db := []
+  /-- item parsing is shared with the cluster ops: only `log` of this state is used -/
+  cl : Driver.ClusterOps.CState := {}
+  params : Option Params := none
+  ing : Ingest.State := Ingest.State.init (Node.fresh nutId)
+  isHeld : Bool := false
+  locked : Bool := false
+  offered : List Offered := []
+
+def init : State := {}
+
+def State.db (st : State) (i : Nat) : Db :=
+  match st.dbs.find? (·.site = i) with | some d => d | none => { site := i }
+
+def State.setDb (st : State) (d : Db) : State :=
+  if st.dbs.any (·.site = d.site) then { st with dbs := st.dbs.map (fun x => if x.site = d.site then d else x) }
+  else { st with dbs := st.dbs ++ [d] }
+
+/-- `Err` carries the canonical answer (`bad-op` → the op is rejected) -/
+def parseItem (st : State) (s : String) : Except String Item :=
+  match Driver.ClusterOps.parseItem st.cl s with
+  | .error e => .error e
+  | .ok it =>
+    match it with
+    | .full _ _ lo hi _ _ => if lo ≤ hi then .ok it else (if s.startsWith "o" then .error "err bad-chunk" else .error "bad-op")
+    | .empty .. => .ok it
+
+def isHeldItem (st : State) (it : Item) : Bool := Ingest.held st.ing.node it
+
+/-- `hold`: the connection is taken and the burst starts right after a tick -/
+def doHold (p : Params) (st : State) : State :=
+  { st with isHeld := true, ing := Ingest.step p st.ing .tick }
+
+/-- `(state, drop, spawn, rb)` -/
+def doOffer (p : Params) (st : State) (text : String) (it : Item) (bcast : Bool) : State × String :=
+  let s := st.ing
+  let acc := Ingest.accepts s it
+  let s' := Ingest.step p s (.offer it bcast)
+  let drop := s'.droppedItems.length - s.droppedItems.length
+  let spawn := s'.inflight.length - s.inflight.length
+  let rb := if acc && bcast && !it.isEmpty then 1 else 0
+  let offered := if it.site ≠ nutId ∧ !(st.offered.any (·.text = text)) then st.offered ++ [⟨text, it⟩] else st.offered
+  ({ st with ing := s', offered := offered }, s!"ok drop={drop} spawn={spawn} rb={rb}")
+
+/-- `release`: every running and queued batch finishes (`Err` while the database is locked by the
+second connection), observed at a tick -/
+def doRelease (p : Params) (st : State) : State :=
+  let s1 := Ingest.drain p (!st.locked) st.ing
+  { st with isHeld := false, ing := Ingest.step p s1 .tick }
+
+def chunksOf {α : Type} (n : Nat) : Nat → List α → List (List α)
+  | 0, _ => []
+  | _, [] => []
+  | fuel + 1, xs => xs.take n :: chunksOf n fuel (xs.drop n)
+
+def reofferRound (p : Params) (st : State) (todo : List Offered) : State :=
+  let group := Nat.max p.maxQueueLen 1
+  (chunksOf group (todo.length + 1) todo).foldl (fun st g =>
+    let st1 := doHold p st
+    let st2 := g.foldl (fun st o => (doOffer p st o.text o.item false).1) st1
+    doRelease p st2) st
+
+def reoffer (p : Params) : Nat → Nat → State → State × Nat
+  | 0, done, st => (st, done)
+  | r + 1, done, st =>
+    let todo := st.offered.filter (fun o => !isHeldItem st o.item)
+    if todo.isEmpty then (st, done) else reoffer p r (done + 1) (reofferRound p st todo)
+
+def showDump (n : Node) : String := s!"{dump n.db} | {Driver.ClusterOps.showBook n}"
+
+def step (st : State) (toks : List String) : Option (State × String) :=
+  match toks with
+  | ["tag", _] => some (st, "ok")
+  | ["cw", db, stmts] => do
+    let i ← db.toNat?.filter (· < 3)
+    let ss ← (stmts.splitOn ";").mapM parseStmt
+    match localTx (st.db i) ss with
+    | .error .constraint => pure (st, "err constraint")
+    | .error .badOp => none
+    | .ok (_, none) => pure (st, "noop")
+    | .ok (d, some (ver, chs)) =>
+      let last := chs.foldl (fun m c => Nat.max m c.seq) 0
+      pure ({ st.setDb d with cl := { st.cl with log := ((i, ver), (chs, last)) :: st.cl.log } }, s!"ok v={ver} {showChgs chs}")
+  | "cfg" :: q :: chunk :: rest => do
+    let tickOk ← match rest with
+      | [] => some true
+      | [t] => (t.toNat?.filter (fun t => 10 ≤ t ∧ t ≤ 5000)).map (fun _ => true)
+      | _ => none
+    let q ← q.toNat?.filter (fun x => 1 ≤ x ∧ x ≤ 100000)
+    let c ← chunk.toNat?.filter (fun x => 1 ≤ x ∧ x ≤ 100000)
+    if !tickOk then none else
+    if st.params.isSome then pure (st, "err configured") else
+    let p : Params := { maxQueueLen := q, maxChangesChunk := c, maxConcurrent := 5, keepSeen := keepSeenOf q, evictDropped := false }
+    -- the interval's first tick fires at once
+    pure ({ st with params := some p, ing := Ingest.step p st.ing .tick }, "ok")
+  | ["hold"] =>
+    match st.params with
+    | none => some (st, "err no-node")
+    | some p => if st.isHeld then some (st, "err held") else some (doHold p st, "ok")
+  | ["release"] =>
+    match st.params with
+    | none => some (st, "err no-node")
+    | some p => if !st.isHeld then some (st, "err not-held") else some (doRelease p st, "ok")
+  | ["tickwait"] =>
+    match st.params with
+    | none => some (st, "err no-node")
+    | some p =>
+      let s := st.ing
+      some ({ st with ing := Ingest.step p s .tick }, s!"ok q={s.queue.length} cost={s.bufCost} jobs={s.inflight.length}")
+  | ["lock"] =>
+    match st.params with
+    | none => some (st, "err no-node")
+    | some _ => if st.locked then some (st, "err locked") else some ({ st with locked := true }, "ok")
+  | ["unlock"] =>
+    match st.params with
+    | none => some (st, "err no-node")
+    | some _ => if !st.locked then some (st, "err not-locked") else some ({ st with locked := false }, "ok")
+  | ["offer", item, src] =>
+    if src ≠ "b" ∧ src ≠ "s" then none else
+    match parseItem st item with
+    | .error e => if e = "bad-op" then none else some (st, e)
+    | .ok it =>
+      match st.params with
+      | none => some (st, "err no-node")
+      | some p => if !st.isHeld then some (st, "err not-held") else some (doOffer p st item it (src == "b"))
+  | ["held", site, vs, seqs] => do
+    let a ← site.toNat?.filter (· < 4)
+    let (vlo, vhi) ← range? vs
+    let sq ← if seqs = "-" then some none else (range? seqs).map some
+    if vlo = 0 ∨ vlo > vhi then none else
+    if (match sq with | some (a, b) => decide (a > b) | none => false) then none else
+    match st.params with
+    | none => pure (st, "err no-node")
+    | some _ => pure (st, if (st.ing.node.booked a).containsAll vlo vhi sq then "yes" else "no")
+  | ["retire", item] =>
+    match parseItem st item with
+    | .error _ => none
+    | .ok _ => some ({ st with offered := st.offered.filter (·.text ≠ item) }, "ok")
+  | ["reoffer", r] => do
+    let r ← r.toNat?.filter (fun r => 1 ≤ r ∧ r ≤ 5)
+    match st.params with
+    | none => pure (st, "err no-node")
+    | some p =>
+      if st.isHeld then pure (st, "err held") else
+      if st.locked then pure (st, "err locked") else
+      let (st', done) := reoffer p r 0 st
+      let left := (st'.offered.filter (fun o => !isHeldItem st' o.item)).map (·.text)
+      pure (st', s!"ok rounds={done} left={showList left}")
+  | ["dump"] =>
+    match st.params with
+    | none => some (st, "err no-node")
+    | some _ => if st.isHeld then some (st, "err held") else some (st, showDump st.ing.node)
+  | _ => none
+
 end Driver.C10
 def main : IO Unit := Driver.runLoop Driver.C10.init Driver.C10.step
